@@ -120,41 +120,48 @@ Proof. exact check_exit_split_sound. Qed.
 Print Assumptions C09_check_exit_split_sound.
 
 (* ---- the guard Polar stores ---- *)
-(* without a collapsed first-level if the stored guard is the source guard ... *)
-Theorem C09_stored_guard_collapse_free :
-  forall fuel p s, collapse_free fuel p -> holds (stored_guard fuel p) s = holds (p_guard p) s.
-Proof. exact stored_guard_collapse_free. Qed.
-Print Assumptions C09_stored_guard_collapse_free.
+(* current rule (/repo 294789f): the stored guard is the source guard, so the event conditioned
+   on is the termination event *)
+Theorem C09_stored_guard_is_termination_event :
+  forall p s, negb (holds (stored_guard p) s) = stopped p s.
+Proof. exact stored_guard_is_termination_event. Qed.
+Print Assumptions C09_stored_guard_is_termination_event.
 
-(* ... in general it is only implied by it: the event conditioned on contains the termination event *)
-Theorem C09_stored_guard_weaker :
-  forall fuel p s, stopped p s = true -> negb (holds (stored_guard fuel p) s) = true.
-Proof. exact stored_guard_weaker. Qed.
-Print Assumptions C09_stored_guard_weaker.
+(* OLD rule (guard merged with collapsed first-level if-conditions): right without a collapse ... *)
+Theorem C09_stored_guard_old_collapse_free :
+  forall fuel p s, collapse_free fuel p -> holds (stored_guard_old fuel p) s = holds (p_guard p) s.
+Proof. exact stored_guard_old_collapse_free. Qed.
+Print Assumptions C09_stored_guard_old_collapse_free.
 
-(* REFUTED without collapse_free: for the witness
+(* ... in general only implied by the source guard: the event conditioned on contained the termination event *)
+Theorem C09_stored_guard_old_weaker :
+  forall fuel p s, stopped p s = true -> negb (holds (stored_guard_old fuel p) s) = true.
+Proof. exact stored_guard_old_weaker. Qed.
+Print Assumptions C09_stored_guard_old_weaker.
+
+(* the OLD rule REFUTED (defect fixed in /repo 294789f; the check reports the witness again if it returns): for
      x = 0; c = Bernoulli(1/2); while x == 0: if c == 1: x = Bernoulli(1/2) end end
-   the stored guard is  x == 0 /\ c == 1; the exit expectation of x given termination is 1 at
-   every n >= 1 of the sample, conditioning on the negated stored guard gives
-   0, 1/3, 3/7, 7/15, 15/31, 31/63 (-> 1/2, the value Polar prints) *)
-Theorem C09_collapse_guard_refuted :
+   the old stored guard is  x == 0 /\ c == 1; the exit expectation of x given termination is 1 at
+   every n >= 1 of the sample, conditioning on the negated old stored guard gives
+   0, 1/3, 3/7, 7/15, 15/31, 31/63 (-> 1/2, the value Polar printed) *)
+Theorem C09_collapse_guard_old_rule_refuted :
   exists (p : prog) (f : state -> Qc) (n : nat),
-    stored_guard 2 p <> p_guard p /\
+    stored_guard_old 2 p <> p_guard p /\
     prob (run no_law p n st0) (stopped p) <> 0%Qc /\
     cond_exp (run no_law p n st0) (stopped p) f <>
-    cond_exp (run no_law p n st0) (fun s => negb (holds (stored_guard 2 p) s)) f.
+    cond_exp (run no_law p n st0) (fun s => negb (holds (stored_guard_old 2 p) s)) f.
 Proof.
   exists collapse_witness, (fun s => s "x"), 3%nat. split; [|split].
   - vm_compute. discriminate.
   - vm_compute. discriminate.
   - vm_compute. discriminate.
 Qed.
-Print Assumptions C09_collapse_guard_refuted.
+Print Assumptions C09_collapse_guard_old_rule_refuted.
 
 Example C09_collapse_witness_values :
   map (fun n => qpair (cond_x_given (stopped collapse_witness) n)) [1; 2; 3; 4; 5; 6]%nat
     = map (fun zp : Z * positive => zp) [(1%Z, 1%positive); (1%Z, 1%positive); (1%Z, 1%positive); (1%Z, 1%positive); (1%Z, 1%positive); (1%Z, 1%positive)] /\
-  map (fun n => qpair (cond_x_given (fun s => negb (holds (stored_guard 2 collapse_witness) s)) n)) [0; 1; 2; 3; 4; 5]%nat
+  map (fun n => qpair (cond_x_given (fun s => negb (holds (stored_guard_old 2 collapse_witness) s)) n)) [0; 1; 2; 3; 4; 5]%nat
     = [(0%Z, 1%positive); (1%Z, 3%positive); (3%Z, 7%positive); (7%Z, 15%positive); (15%Z, 31%positive); (31%Z, 63%positive)].
 Proof. vm_compute. split; reflexivity. Qed.
 
